@@ -246,6 +246,25 @@ example : segHitsInterior Demo.B Demo.c.pt Demo.p.v.pt = true ∧
     Demo.e List.mem_cons_self (by unfold NonEnd; decide +kernel) (by decide +kernel)
     (by intro f hf _ _; rw [List.mem_singleton.mp hf]; rfl)
 
+-- non-vacuity of `sweepVisible_visible_of_all_farther` on a non-empty status list: B's right side moved
+-- beyond P (squared distance 20000 > 10000)
+example : sweepVisible [{ Demo.e with adist := 20000 }] Demo.p [1] = true :=
+  sweepVisible_visible_of_all_farther _ Demo.p [1] rfl (by
+    intro f hf _; rw [List.mem_singleton.mp hf]; decide +kernel)
+
+-- non-vacuity of `sweepStep_not_visible_of_witness` (all hypotheses jointly): the sweep centred at C reaches P
+-- with B's right side in the status list; the step's decision is not "visible"
+example : ∃ d : Dec, (sweepStep true true Demo.c [1] ([Demo.e], []) Demo.p).2 = (Demo.p.v.idx, d) :: [] ∧
+    d ≠ some true := by
+  have h1 : Demo.e.setCurr Demo.c.pt Demo.p = Demo.e := by
+    unfold EP.setCurr
+    rw [if_neg (by decide +kernel), if_neg (by decide +kernel), if_neg (by decide +kernel)]
+  have hT : sortBy epLt ([Demo.e].map (fun e => e.setCurr Demo.c.pt Demo.p)) = [Demo.e] := by
+    simp [sortBy, insertBy, h1]
+  exact sweepStep_not_visible_of_witness true true Demo.c [1] ([Demo.e], []) Demo.p rfl Demo.e
+    (by rw [hT]; exact List.mem_cons_self) (by unfold NonEnd; decide +kernel) (by decide +kernel)
+    (by rw [hT]; intro f hf _ _; rw [List.mem_singleton.mp hf]; decide +kernel)
+
 /-- the blind spot is real: centre in the middle of B's TOP side, nothing recorded -/
 example : onBorderIDs { idx := 4, obj := 2, vn := 0, conn := false, pt := ⟨150, 100⟩ } (shapeVerts 0 1 Demo.B) = [] := by
   decide +kernel
@@ -255,12 +274,23 @@ example : onBorderIDs { idx := 4, obj := 2, vn := 0, conn := false, pt := ⟨150
     executable model (`transactionEdges`: sweeps, status list, `onBorderIDs`, `newBlockingShape`) evaluated in
     the kernel.  (Every other order is compared with the C++ by the driver on each run.) -/
 theorem demo_scene_edge_blocked_BAD :
-    ((2, 0), (3, 2)) ∉ transactionEdges true true [(1, Demo.B), (2, Demo.A), (3, Demo.D)] [] := by
+    ((2, 0), (3, 2)) ∉ transactionEdges true true [(1, Demo.B), (2, Demo.A), (3, Demo.D)] [] ∧
+    ((3, 2), (2, 0)) ∉ transactionEdges true true [(1, Demo.B), (2, Demo.A), (3, Demo.D)] [] := by
   decide +kernel
 
-/-- the same for the creation order B, D, A — the deciding sweep is centred at C and reaches P -/
+/-- the same for the creation order B, D, A — the deciding sweep is centred at C and reaches P.
+    `transactionEdges` lists every edge with the end of smaller GLOBAL index first (here D's vertices precede
+    A's), so the edge C–P would appear as ((2,2),(3,0)): both orientations are excluded (the orientation
+    ((3,0),(2,2)) alone never occurs in the list, whatever the sweep decides). -/
 theorem demo_scene_edge_blocked_BDA :
+    ((2, 2), (3, 0)) ∉ transactionEdges true true [(1, Demo.B), (2, Demo.D), (3, Demo.A)] [] ∧
     ((3, 0), (2, 2)) ∉ transactionEdges true true [(1, Demo.B), (2, Demo.D), (3, Demo.A)] [] := by
+  decide +kernel
+
+-- the two statements are not hollow: the edge lists are not empty, and contain e.g. the edge from B's corner
+-- (200,0) to P — in the orientation "smaller global index first"
+example : ((1, 0), (3, 2)) ∈ transactionEdges true true [(1, Demo.B), (2, Demo.A), (3, Demo.D)] [] ∧
+    ((1, 0), (2, 2)) ∈ transactionEdges true true [(1, Demo.B), (2, Demo.D), (3, Demo.A)] [] := by
   decide +kernel
 
 end AdaptaVerif.Props.C03Lee
